@@ -389,10 +389,15 @@ func vDo(op vOp) interface{} {
 	return map[string]string{"error": "unknown op " + op.Op}
 }
 
+// vCells dumps Action(state, symbol) for every state: states are probed from 0
+// upwards until a lookup in a new state fails (index out of range), so nothing
+// is assumed about how the error and accept codes relate to the state count.
 func vCells() interface{} {
-	n := ERROR_ACTION - 100
 	var out [][]int
-	for s := 0; s < n; s++ {
+	for s := 0; s < 5000; s++ {
+		if _, ok := vCell(s, 0); !ok {
+			break
+		}
 		row := []int{}
 		for a := 0; ; a++ {
 			v, ok := vCell(s, a)
@@ -593,9 +598,11 @@ func vDo(op vOp) interface{} {
 }
 
 func vCells() interface{} {
-	n := ERROR_ACTION - 100
 	var out [][]int
-	for s := 0; s < n; s++ {
+	for s := 0; s < 5000; s++ {
+		if _, ok := vCell(s, 0); !ok {
+			break
+		}
 		row := []int{}
 		for a := 0; a < vNSyms; a++ {
 			v, ok := vCell(s, a)
@@ -751,13 +758,16 @@ function vParse(op :any) :any {
 }
 
 function vCells() :any {
-	const n = ACCEPT_ACTION - 200
 	const out :number[][] = []
-	for (let s = 0; s < n; s++) {
+	for (let s = 0; s < 5000; s++) {
 		const row :number[] = []
-		for (let a = 0; a < vNSyms; a++) {
-			row.push(new StateSym(s, 0).Action(a))
-		}
+		try {
+			for (let a = 0; a < vNSyms; a++) {
+				const v = new StateSym(s, 0).Action(a)
+				if (v === undefined) { throw "end" }
+				row.push(v)
+			}
+		} catch (e) { break }
 		out.push(row)
 	}
 	return {cells: out}
